@@ -28,6 +28,9 @@ from linear_operator import operators as O  # noqa: E402
 
 
 def member(fam, n, i, seed):
+    if "@" in fam:  # "family@scale": batch members of very different magnitude (the stopping rule is relative per member)
+        base, sc = fam.split("@")
+        return member(base, n, i, seed) * float(sc)
     if fam == "lowrank":
         k = max(1, n // 2)
         B = torch.randn(n, k, generator=RA.gen(f"lr{n}{i}", seed), dtype=torch.float64)
@@ -83,6 +86,11 @@ def cases(tier, seed):
         for k in range(1, n + 2):
             out.append({"k": "pc", "fam": [fam], "n": n, "rank": k, "tol": tol, "dt": dt, "cls": "Dense"})
     mixes = [["geom", "lowrank"], ["lowrank1", "unif"], ["tied", "lowrank"], ["geom", "unif", "clustered"], ["lowrank", "lowrank1", "constdiag"]]
+    # members of different magnitude and different numerical rank: the early stop must wait for the slowest member relative to ITS OWN scale
+    scaled = [["lowrank1@1000", "lowrank"], ["lowrank", "lowrank1@1e-3"], ["geom@1e-4", "lowrank1"], ["lowrank1@100", "tied", "lowrank@0.01"]]
+    for mix, n, tol in itertools.product(scaled, [n_ for n_ in ns if n_ >= 3], [None, 1e-1, 1e-2, 1e-8]):
+        for k in ([2, n - 1, n, n + 1] if tier == "quick" else range(1, n + 2)):
+            out.append({"k": "pc", "fam": mix, "n": n, "rank": k, "tol": tol, "dt": "f64", "cls": "Dense"})
     for mix, n, tol in itertools.product(mixes, ns, [None, 1e-8, 1e-12]):
         for k in ([1, 2, n - 1, n, n + 1] if tier == "quick" else range(1, n + 2)):
             if k >= 1:
